@@ -1,5 +1,6 @@
 """C18 -- custom schedulers are offered every match, lose none, and keep the DB sound."""
-from . import family, sess
+import json, os
+from . import core, family, sess, models, sessgen
 
 PROFILES = [
     dict(fns=["min"], nrules=4, nsets=2, rels=2, ncmds=16, checks=0.15, sched_depth=1, depth=2, growth=False, sched=0.45, late_rules=0.3),
@@ -7,16 +8,94 @@ PROFILES = [
     dict(fns=["max"], consts=2, unary=1, binary=1, nrules=3, nsets=1, rels=1, ncmds=18, checks=0.1, sched_depth=1, depth=2, growth=False, sched=0.6, panic=0.1, novar_rules=1),
 ]
 PAR = dict(threads=4, seminaive=True, enc="plain")
+MODEL_INFO = {}
+
+
+def model_sessions(tier):
+    """TLC on MC_SchedExt (model program PS): invariants of the scheduler semantics on every reachable state,
+    and one REPLAY line per transition; the maximal histories become sessions for the real engine."""
+    wd = core.workdir("c18_model")
+    mpath = os.path.join(wd, "PS.json")
+    p, m, _ = models.write_model("PS", mpath, maxlen=3 if tier == "quick" else 4)
+    res = core.run_tlc("MC_SchedExt", cfg="MC_SchedExt.cfg", workers=8 if tier == "quick" else 12, env={"MODEL": mpath}, timeout=3300,
+                       coverage=False, xmx="8g")
+    MODEL_INFO.update(states=res.distinct, generated=res.generated, violated=res.invariant, text=res.error_text()[:1500] if res.invariant else "")
+    if res.invariant is None and not res.noerror:
+        raise core.ToolError("TLC did not finish on MC_SchedExt: %s" % res.error_text()[:600])
+    replays = []
+    for line in res.printed:
+        if line.startswith('<<"REPLAY"'):
+            js = line[line.index(',') + 1:].strip()
+            replays.append(json.loads(json.loads(js[:js.rindex('>>')].strip())))
+    if not replays and res.invariant is None:
+        raise core.ToolError("no REPLAY lines from MC_SchedExt")
+    keyed = {json.dumps(r, sort_keys=True): r for r in replays}
+    strs = set(keyed)
+    pre = set()
+    for r in replays:
+        for k in range(1, len(r)):
+            pre.add(json.dumps(r[:k], sort_keys=True))
+    maximal = [keyed[k] for k in sorted(strs - pre)]
+    if not any("s" in st for r in maximal for st in r):
+        raise core.ToolError("vacuity: MC_SchedExt took no scheduler step")
+    MODEL_INFO.update(transitions=len(replays), replayed_histories=len(maximal))
+    setup = sessgen.decl_text(p) + [sessgen.rule_text(p, p.rules[i - 1]) for i in m["active"]]
+    out = []
+    for k, r in enumerate(maximal):
+        steps = []
+        for st in r:
+            if "c" in st:
+                c = m["cmds"][st["c"] - 1]
+                steps.append(dict(c=c, text=sessgen.cmd_text(p, c)))
+            else:
+                rules = []
+                # a TLA+ function over 1..n is printed as a JSON array, over other rule sets as an object
+                pol = st["s"] if isinstance(st["s"], dict) else {str(i + 1): x for i, x in enumerate(st["s"])}
+                sk = st["k"] if isinstance(st["k"], dict) else {str(i + 1): x for i, x in enumerate(st["k"])}
+                for ri_s, mode in sorted(pol.items()):
+                    ri = int(ri_s)
+                    rule = p.rules[ri - 1]
+                    hv = m["hv"][ri - 1]
+                    rules.append(dict(idx=ri, name=rule["name"], vars=hv, sorts=["E"] * len(hv),
+                                      mode="mask" if mode == "one" else mode, mask=1, seek=sk[ri_s]))
+                c = dict(k="sstep", rs=m["rs"], rules=rules)
+                steps.append(dict(c=c, text="(sstep %s %s)" % (m["rs"], " ".join("%s:%s" % (q["name"], q["mode"]) for q in rules))))
+        out.append(dict(id="c18-PS-%d" % k, mode=dict(threads=1, seminaive=True, enc="plain"), prog=m["prog"], active=m["active"],
+                        setup=setup, steps=steps, tables=[fn["name"] for fn in p.funcs]))
+    if tier == "quick":
+        import random
+        random.Random(core.seed()).shuffle(out)
+        out = out[:150]
+    return out
+
+
+def post(V, results, detail):
+    detail["models"]["MC_SchedExt/PS"] = dict(MODEL_INFO)
+    detail["extra_states"] = MODEL_INFO.get("states", 0)
+    detail["extra_transitions"] = MODEL_INFO.get("transitions", 0)
+    if MODEL_INFO.get("violated"):
+        V.violation("model:SchedExt:%s" % MODEL_INFO["violated"], "SchedExt violates %s on model program PS\n%s" % (MODEL_INFO["violated"], MODEL_INFO["text"]),
+                    dict(kind="model", module="MC_SchedExt", invariant=MODEL_INFO["violated"]))
 
 
 def check(tier):
-    return family.check_groups(
-        "C18", tier,
-        [dict(fam="c18", model_specs=[], profiles=PROFILES, configs=[(family.SEQ, None), (PAR, sess.PAR0)], nrand=(40, 700))],
-        ["the scheduler policy (which of the offered matches to choose, whether to keep seeking) is drawn by the session generator and executed by an "
-         "instrumented Scheduler; the specification does not choose, it checks the four obligations of SchedExt.tla for what was offered and chosen: "
-         "nothing invented / nothing resting on a subsumed row among new matches, unchosen matches carried over, every match of the body offered or "
-         "already applied when seeking, and the database after the step equal to running the heads for exactly the chosen matches",
-         "between steps the sessions perform unions, inserts, sets, subsumes and built-in runs; matches are compared by class NAME re-evaluated in the "
-         "current database (so a match offered before a union and applied after it is interpreted modulo that union); delete-free, no containers, no push/pop",
-         "after a step that fails at run time the scheduler obligations are no longer evaluated for that session (raw-state invariants still are)"])
+    old = sessgen.PATTERN_FIRST[0]
+    sessgen.PATTERN_FIRST[0] = True
+    try:
+        return family.check_groups(
+            "C18", tier,
+            [dict(fam="c18", model_specs=[], profiles=PROFILES, configs=[(family.SEQ, None), (PAR, sess.PAR0)], nrand=(40, 700)),
+             dict(fam="c18m", model_specs=[], profiles=[], configs=[(family.SEQ, None)], nrand=(0, 0), extra=model_sessions)],
+            ["the scheduler policy (which of the offered matches to choose, whether to keep seeking) is drawn by the session generator (or by TLC, "
+             "for the histories of MC_SchedExt) and executed by an instrumented Scheduler; the specification does not choose, it checks the obligations "
+             "of SchedExt.tla for what was offered and chosen: nothing invented / nothing resting on a subsumed row among new matches, unchosen matches "
+             "carried over, every match of the body offered or already applied when seeking, and the database after the step equal to running the heads "
+             "for exactly the chosen matches",
+             "between steps the sessions perform unions, inserts, sets, subsumes and built-in runs; matches are compared by class NAME re-evaluated in the "
+             "current database (so a match offered before a union and applied after it is interpreted modulo that union); delete-free, no containers, no push/pop",
+             "MC_SchedExt checks on every reachable state of model program PS (policies all/none/one x seek per rule) that choosing everything is one built-in "
+             "iteration and that any delay followed by choosing everything reaches the built-in saturation of the inputs (confluent, monotone program)",
+             "after a step that fails at run time the scheduler obligations are no longer evaluated for that session (raw-state invariants still are)"],
+            post=post)
+    finally:
+        sessgen.PATTERN_FIRST[0] = old
